@@ -2,9 +2,16 @@ from driver import Job
 
 SPEC = {
     "engine": "E2+E1",
-    "technique": "reference-model monitor (overlay store vs plain store) + before/after digests around speculative activities",
+    "technique": "reference-model monitor (overlay store vs plain store) + before/after digests and fresh-view root probes around speculative activities "
+                 "on a replica of a generated chain + historical / held read-only views compared with values recorded at commit time",
     "level_text": "Every operation of generated op sequences on the copy-on-write store is compared with a plain store pre-loaded "
-                  "with the same data; the base is digested before/after. Held on the sequences run, not a proof.",
+                  "with the same data; the base is digested before/after. "
+                  "On a replica of a generated multi-node chain every speculative activity (ValidateBlock of foreign proposals, ProposeBlock incl. proposals that deploy a "
+                  "never-seen WASM code and are thrown away, ForCheck views written / precommitted / committed, ValidateSubChain, read-only queries with creating accessors) is "
+                  "bracketed by digests of head, roots, stored versions and all state-tree keys, followed by a fresh check view of the head that is precommitted without writes "
+                  "and must reproduce the canonical roots; a block every other replica accepts must not be refused by this replica. Read-only views of all retained heights, "
+                  "views held across 1..3 further block commits, and views after a height was re-committed with another block are compared with the values recorded when "
+                  "the height was committed. Held on the sequences run, not a proof.",
     "level_note": "trusted: tm-db MemDB as reference; generator reach (small key universes, all op kinds, bounds on/off keys)",
     "level": "exploration",
     "rule": "case = one operation of a generated sequence executed on BackedMemDb(base) and on a reference MemDB pre-loaded "
@@ -17,7 +24,8 @@ SPEC = {
     "floors": {"op_iter_reverse": 100, "op_batch_written": 100, "op_batch_abandoned": 50, "iter_over_touched_base_key": 100,
                "activity:ValidateBlock": 50, "activity:ProposeBlock": 100, "activity:ForCheck+writes+Precommit+Commit": 100,
                "activity:ValidateSubChain(ForCheckWithOverwrite)": 100, "activity:Readonly-queries": 100, "historical_reads": 5000,
-               "pruned_height_reads": 500, "reads_after_reorg": 40},
+               "pruned_height_reads": 500, "reads_after_reorg": 40,
+               "wasm_deploys_in_discarded_proposals": 50, "held_view_reads": 400, "fresh_view_root_checks": 700},
     "parallel": 16,
     "assumptions": ["chain part: ProposeBlock may write its tx-applying log / black list (node database, not canonical state): only state-tree keys are compared for it", "reference store = tm-db MemDB pre-loaded with the base contents",
                     "no writes while an iterator is open (tm-db MemDB iterators hold a read lock)"],
